@@ -128,7 +128,7 @@ def params_of(sig):
         p = p.strip()
         if p in ('self', '&self', '&mut self', 'mut self'):
             continue
-        m = re.match(r'^(\w+)\s*:', p)
+        m = re.match(r'^(?:mut\s+)?(\w+)\s*:', p)
         if not m:
             raise Untranslatable("parameter `%s`" % p)
         names.append(m.group(1))
